@@ -34,6 +34,7 @@ UNIT_DEPS = {
     'prim_mul': ['mul', 'conv'],
     'round': ['core', 'pow10', 'types', 'context'],
     'config': ['types'],
+    'digits': ['pow10', 'core'],
     'rem': ['core', 'scale', 'pow10'],
     'context': ['types', 'config', 'round'],
 }
@@ -97,9 +98,10 @@ prop('C09', units=['rem', 'scale', 'core', 'pow10'], level='proof',
      level_note=_NOTE_COMMON,
      technique=_TECH)
 
-prop('C18', units=['pow10', 'core', 'canon', 'scale'], level='proof',
+prop('C18', units=['pow10', 'core', 'canon', 'scale', 'digits'], level='proof',
      level_text=('Verus proves field-exact postconditions for constructors, accessors and reference views (with the reference view\'s sign/magnitude '
-                 'invariant as a checked type invariant), 10^pow for all three algorithms of ten_to_the_uint and every pow, exact multiplication by the '
+                 'invariant as a checked type invariant), 10^pow for all three algorithms of ten_to_the_uint and every pow, digits() == exact decimal digit count '
+                 '(upward correction loop from the f64 estimate, which enters as named axiom A1), exact multiplication by the '
                  'power of ten in scale extension, and normalized(): same value, no trailing zero digit, zero becomes (0,0)'),
      level_note=_NOTE_COMMON,
      technique=_TECH)
